@@ -19,7 +19,7 @@ RULE = ("Short texts (Hypothesis: <=4 vocabulary tokens, structured families, bu
         "+ rule names) is a path of the graph ending in a sequence containing it; with depth 0 every "
         "element of a fully reduced sequence is streamed (by value); argument snapshots before/after "
         "every production are equal (registry wrapped in place) and every yielded candidate is "
-        "unchanged when the stream ends. Non-trivial = distinct (text, ts) whose graph has >=2 maximal "
+        "unchanged when the stream ends. Plus a pinned list of texts with large search fronts at unlimited depth x 8 scorers. Non-trivial = distinct (text, ts) whose graph has >=2 maximal "
         "sequences or >=3 rule applications.")
 
 MAX_STATES = 20000
@@ -363,10 +363,41 @@ def _pinned(arg):
     return acc
 
 
+# texts whose unlimited-depth search front grows into the hundreds or thousands of open partial parses (beyond the
+# bound of the generated texts); decided exactly against the closure all the same
+LARGE = ["late afternoon of January 25th 2017", "August 5th 8h - August 16th 13h", "1 2 3 4"]
+LARGE_THOROUGH = ["1 2 3 4 5"]
+
+
+def _large(arg):
+    pid, text, sc = arg
+    acc = core.Acc(pid)
+    ts = dt.datetime(2020, 2, 25, 12, 34)
+    global MAX_STATES
+    old, MAX_STATES = MAX_STATES, 100000
+    try:
+        clo = Closure(text, ts)
+    finally:
+        MAX_STATES = old
+    if clo.too_big:
+        acc.inconclusive += 1
+        return acc
+    fails, _ = check(text, ts, sc, 0, clo)
+    case = {"text": text, "ts": ts.isoformat(), "scorer": core.jsonable(sc), "depth": 0}
+    acc.case((text, repr(sc)), nontrivial=True, cls=["large-search-front", "depth0", "scorer:" + (sc if isinstance(sc, str) else "random")],
+             sample=dict(case, states=len(clo.states), chains=len(clo.chains), reduced_values=len(clo.reduced_values)))
+    for b, d in fails or []:
+        acc.fail(b, case, d)
+    return acc
+
+
 def run(ctx):
     n = 16000 if ctx.thorough else 1600
     acc = core.pmap_acc(ctx.pid, _shard, [(ctx.pid, ctx.seed, n // 16, i, ctx.thorough) for i in range(16)])
     acc.merge(core.pmap_acc(ctx.pid, _pinned, [(ctx.pid, p) for p in core.chunks(PINNED, 16)]))
+    big = [(ctx.pid, t, sc) for t in LARGE + (LARGE_THOROUGH if ctx.thorough else [])
+           for sc in ["dummy", "default"] + [("random", k) for k in range(1, 7)]]
+    acc.merge(core.pmap_acc(ctx.pid, _large, big))
     return core.finish(ctx, acc, RULE, assumptions=[
         "texts limited to <=40 candidate sequences of <=5 matches; reference closure aborted beyond {} states (inconclusive)".format(MAX_STATES),
         "the reference uses the registered rule functions and predicates, the pattern table and the RegexMatch class; it does not use _match_regex, _regex_stack, _match_rule, PartialParse or the rule pre-filter",
